@@ -19,9 +19,13 @@ theorem wf_asconst (env : SEnv) (c : String) (sort : Sexp) (hc : symName? c = so
     simp only [List.cons.injEq, Sexp.atom.injEq, and_true, true_and] at heq
     obtain ⟨rfl, rfl⟩ := heq
     simp only [hc, beq_self_eq_true, if_true] at hstd
+    cases hs : sortStd env sort with
+    | error e => simp [hs] at hstd
+    | ok ty =>
+    simp only [hs] at hstd
     split at hstd
-    · rename_i it et v _ heq2
-      cases heq2
+    · rename_i it et v heq1
+      cases heq1
       split at hstd
       · rename_i hv
         cases hstd
@@ -36,8 +40,23 @@ theorem wf_asconst (env : SEnv) (c : String) (sort : Sexp) (hc : symName? c = so
   · rename_i h1 h2
     exact absurd rfl (h2 _ _)
 
+theorem wf_rot (f : String) (op : Op) (hf : f = "rotate_left" ∧ op = .bvRol ∨ f = "rotate_right" ∧ op = .bvRor)
+    (k : Nat) (as : List TT) (u : Term) (τ : Ty) (hargs : ∀ a ∈ as, WT a.1 a.2)
+    (hk : ∀ a ∈ as, ∀ m, a.2 = .bv m → k ≤ m)
+    (hstd : applyIndexed f [k] as = .ok (u, τ)) : WT u τ := by
+  obtain ⟨a, m, rfl, hm, rfl, rfl⟩ := std_rot f op hf k as u τ hstd
+  have hop : op = .bvRol ∨ op = .bvRor := by rcases hf with ⟨_, h⟩ | ⟨_, h⟩ <;> simp [h]
+  have hkm := hk a (by simp) m hm
+  refine wt_std hargs (by rcases hop with rfl | rfl <;> rfl) ?_
+  simp only [List.map_cons, List.map_nil, hm]
+  have h1 : ¬ (m < k) := by omega
+  rcases hop with rfl | rfl <;> simp [C03.tyNode, h1]
+
 theorem applyHead_wf (env : SEnv) (hd : List Sexp) (hf : fragHead hd = true) (as : List TT) (u : Term) (τ : Ty)
-    (hargs : ∀ a ∈ as, WT a.1 a.2) (hstd : applyHead env hd as = .ok (u, τ)) : WT u τ := by
+    (hargs : ∀ a ∈ as, WT a.1 a.2)
+    (hrot : ∀ f k kk, hd = [.atom "_", .atom f, .atom k] → (f = "rotate_left" ∨ f = "rotate_right") →
+      numeral? k = some kk → ∀ a ∈ as, ∀ m, a.2 = .bv m → kk ≤ m)
+    (hstd : applyHead env hd as = .ok (u, τ)) : WT u τ := by
   match hd, hf with
   | [.atom u', .atom f, .atom i, .atom j], hf =>
     simp only [fragHead, Bool.and_eq_true, beq_iff_eq] at hf
@@ -54,7 +73,7 @@ theorem applyHead_wf (env : SEnv) (hd : List Sexp) (hf : fragHead hd = true) (as
     rcases hf with ⟨⟨rfl, hf⟩, hx⟩ | ⟨⟨rfl, hcst⟩, hsort⟩
     · match x, hx with
       | .atom k, _ =>
-        rcases hf with (rfl | rfl) | rfl
+        rcases hf with (((rfl | rfl) | rfl) | rfl) | rfl
         · simp only [applyHead, pyTok_idx.2.2.2.2.2.1] at hstd
           cases hidx : indices [.atom k] with
           | none => simp [hidx] at hstd
@@ -76,6 +95,20 @@ theorem applyHead_wf (env : SEnv) (hd : List Sexp) (hf : fragHead hd = true) (as
             obtain ⟨nk, hk, rfl⟩ := indices_one hidx
             simp only [hidx, List.isEmpty_cons, Bool.false_eq_true, if_false] at hstd
             exact wf_repeat nk as u τ hargs hstd
+        · simp only [applyHead, pyTok_rot.2.2.1] at hstd
+          cases hidx : indices [.atom k] with
+          | none => simp [hidx] at hstd
+          | some ns =>
+            obtain ⟨nk, hk, rfl⟩ := indices_one hidx
+            simp only [hidx, List.isEmpty_cons, Bool.false_eq_true, if_false] at hstd
+            exact wf_rot "rotate_left" .bvRol (Or.inl ⟨rfl, rfl⟩) nk as u τ hargs (hrot _ _ nk rfl (Or.inl rfl) hk) hstd
+        · simp only [applyHead, pyTok_rot.2.2.2] at hstd
+          cases hidx : indices [.atom k] with
+          | none => simp [hidx] at hstd
+          | some ns =>
+            obtain ⟨nk, hk, rfl⟩ := indices_one hidx
+            simp only [hidx, List.isEmpty_cons, Bool.false_eq_true, if_false] at hstd
+            exact wf_rot "rotate_right" .bvRor (Or.inr ⟨rfl, rfl⟩) nk as u τ hargs (hrot _ _ nk rfl (Or.inr rfl) hk) hstd
     · exact wf_asconst env f x hcst as u τ hargs hstd
 
 /-! ## applications of declared functions -/
